@@ -66,7 +66,16 @@ func genValue(t *rapid.T, depth int, o docOpts) interface{} {
 func genArray(t *rapid.T, depth int, o docOpts) interface{} {
 	n := rapid.IntRange(0, o.maxWidth).Draw(t, "arrayLen")
 	out := make([]interface{}, 0, n)
-	switch uni(t, 6, "arrayShape") {
+	shape := uni(t, 7, "arrayShape")
+	if shape == 6 {
+		// a long array of distinct numbers (indices >= 8 matter for number parsing)
+		n = 9 + rapid.IntRange(0, 6).Draw(t, "longLen")
+		for i := 0; i < n; i++ {
+			out = append(out, float64(100+i))
+		}
+		return out
+	}
+	switch shape {
 	case 0: // numbers
 		for i := 0; i < n; i++ {
 			out = append(out, float64(rapid.IntRange(-3, 9).Draw(t, "n")))
@@ -545,7 +554,7 @@ func (g *exprGen) sliceText(cur interface{}) []string {
 			return []string{ext[g.n(len(ext), label+"ExtV")]}
 		}
 		v := g.n(2*l+5, label) - l - 2
-		return []string{strconv.Itoa(v)}
+		return []string{g.spellInt(v)}
 	}
 	out := []string{"["}
 	out = append(out, part("slStart")...)
@@ -648,7 +657,7 @@ func (g *exprGen) chain(cur interface{}, depth int, maxSteps int) []string {
 		rep = evalLex(lex, rep)
 	case "index":
 		i := g.indexFor(rep)
-		lex = []string{"[", strconv.Itoa(i), "]"}
+		lex = []string{"[", g.spellInt(i), "]"}
 		rep = stepIndex(rep, i)
 	case "proj":
 		lex, rep = g.projStep(nil, rep, cur, depth, true)
@@ -674,7 +683,7 @@ func (g *exprGen) chain(cur interface{}, depth int, maxSteps int) []string {
 			return lex
 		case "index":
 			i := g.indexFor(rep)
-			lex = append(lex, "[", strconv.Itoa(i), "]")
+			lex = append(lex, "[", g.spellInt(i), "]")
 			rep = stepIndex(rep, i)
 		case "multiselect":
 			lex = append(lex, ".")
@@ -749,6 +758,19 @@ func (g *exprGen) cond(elem interface{}, depth int) []string {
 		return g.chain(elem, depth, 1)
 	}
 	return g.boolean(elem, depth)
+}
+
+// spellInt writes an index or slice part, sometimes zero padded ("number" is
+// ["-"] 1*digit: leading zeros are decimal, not octal).
+func (g *exprGen) spellInt(i int) string {
+	if !g.pct(10, "padInt") {
+		return strconv.Itoa(i)
+	}
+	pad := []string{"0", "00", "000"}[g.n(3, "padLen")]
+	if i < 0 {
+		return "-" + pad + strconv.Itoa(-i)
+	}
+	return pad + strconv.Itoa(i)
 }
 
 func stepField(v interface{}, k string) interface{} {
